@@ -332,8 +332,14 @@ outer:
 		return
 	}
 
-	// No better solution than allocate at the end of the table.
+	// No better solution than allocate at the end of the table. Each line needs a base of its own:
+	// lines sharing a base would pick up each other's cells.
 	base = a.size - min
+	for a.usedBase.Get(a.delta + base) {
+		base++
+		a.usedBase.Grow(a.delta + base + 1)
+	}
+	a.taken.Grow(base + max + 1)
 	return
 }
 
